@@ -22,6 +22,9 @@ func (r *FragRule) RunPass(ctx *Context, pass Pass) {
 
 		hasDiscard := false
 		hasEmit := false
+		// The state machine stops interpreting actions at @discard and @emit, so
+		// they are placed after all the other actions.
+		var last []mode.Action
 		for _, actAST := range r.Actions {
 			act := actAST.GetAction()
 			switch act.Type {
@@ -33,6 +36,8 @@ func (r *FragRule) RunPass(ctx *Context, pass Pass) {
 					return
 				}
 				hasDiscard = true
+				last = append(last, act)
+				continue
 			case mode.ActionAccept:
 				if hasEmit {
 					ctx.Errs.Errorf(
@@ -41,9 +46,12 @@ func (r *FragRule) RunPass(ctx *Context, pass Pass) {
 					return
 				}
 				hasEmit = true
+				last = append(last, act)
+				continue
 			}
 			actions.Actions = append(actions.Actions, act)
 		}
+		actions.Actions = append(actions.Actions, last...)
 
 		if !hasDiscard && !hasEmit {
 			actions.Actions = append(actions.Actions, mode.Action{
